@@ -200,8 +200,10 @@ def loopHead (P : Params) (s : State) : State :=
 /-- after the first block has been fetched (`stream_blocks.go:33-52`) -/
 def afterFirst (P : Params) (s : State) (good : Bool) : State :=
   let s := { s with latestOk := good }
-  -- `if fromHeight == toHeight` (stream_blocks.go:43, D17 repair) sits inside the goroutine's function literal, which
-  -- the guard extractor does not translate: written by hand.  The range check of the callee IS the regenerated guard.
+  -- `if fromHeight == toHeight` (stream_blocks.go:43, D17 repair) sits inside the goroutine's function literal; it is
+  -- written by hand here and proved equal to the regenerated guard `…streamBlocks_lit0_0` in Props/C16
+  -- (`single_block_branch`; likewise `reorderer_loop_head`, `worker_exit_condition`, `flag_tests_pinned` for the other
+  -- conditions of the function literals).  The range check of the callee IS the regenerated guard.
   if P.lo = P.hi then { s with rph := .s0 }                       -- single-block range: no workers
   else if blockscan_BlockScanner_streamBlocksUnordered_0 (toHeight := P.hi) (fromHeight := P.lo + 1) then
     { s with panicked := true }                                    -- panic(ErrInvalidBlockHeight) inside the goroutine
